@@ -151,6 +151,8 @@ pub const MASKS: &[&str] = &["none", "all_true", "all_false", "single", "random"
 #[derive(Clone, Debug)]
 pub struct GenLimits {
     pub max_n: usize,
+    /// Lower bound on the number of generators asked for (0 = none).
+    pub min_n: usize,
     /// Probability weights for dimensionality 1, 2, 3.
     pub dim_weights: [u32; 3],
 }
@@ -159,6 +161,7 @@ impl Default for GenLimits {
     fn default() -> Self {
         GenLimits {
             max_n: 200,
+            min_n: 0,
             dim_weights: [1, 3, 6],
         }
     }
@@ -207,7 +210,10 @@ pub fn gen_case(rng: &mut Rng, lim: &GenLimits) -> Case {
         }
     };
 
-    let n = pick_n(rng, lim.max_n);
+    let mut n = pick_n(rng, lim.max_n);
+    if lim.min_n > 0 && n < lim.min_n {
+        n = lim.min_n + rng.below((lim.max_n.max(lim.min_n) - lim.min_n + 1) as u64) as usize;
+    }
     let family = *rng.pick(FAMILIES);
     let mut unit: Vec<[f64; 3]> = vec![]; // in [0,1)^3
     match family {
@@ -434,7 +440,7 @@ pub fn gen_case(rng: &mut Rng, lim: &GenLimits) -> Case {
 // Variants: related inputs for multi-call histories
 // ---------------------------------------------------------------------------
 
-pub const VARIANT_KINDS: &[&str] = &["mask", "periodic_flip", "jitter", "nudge_others", "truncate", "extend", "box", "permute"];
+pub const VARIANT_KINDS: &[&str] = &["mask", "periodic_flip", "jitter", "nudge_others", "truncate", "extend", "box", "permute", "dim"];
 
 fn clamp_into_box(c: &Case, p: &mut [f64; 3]) {
     for a in 0..3 {
@@ -548,6 +554,23 @@ pub fn derive_variant(rng: &mut Rng, base: &Case) -> Case {
                 if let Some(m) = &mut c.mask {
                     m.push(rng.chance(0.5));
                 }
+            }
+        }
+        "dim" => {
+            // the same generator array tessellated in another dimensionality
+            let mut d = 1 + rng.below(3) as usize;
+            if d == c.dim {
+                d = 1 + (d % 3);
+            }
+            c.dim = d;
+            let cc = c.clone();
+            for g in c.gens.iter_mut() {
+                for a in 0..3 {
+                    if !g[a].is_finite() {
+                        g[a] = cc.anchor[a];
+                    }
+                }
+                clamp_into_box(&cc, g);
             }
         }
         "box" => {
